@@ -161,6 +161,18 @@ def corpus():
             "400100010f", "40010001d0", "40010001e000", "400100011d", "c0010001", "00010001", "4801000101",
             "60000001ff", "40010001b1"]
     out.append({"ops": [{"op": "rawbytes", "t": 0.1 * (i + 1), "hex": h} for i, h in enumerate(raws)], "net": {}})
+    # a long history in one process: 1500 distinct unassigned option numbers pass through the parser, then ordinary
+    # messages must still parse into the same fields and values (tables that are filled or cleaned lazily)
+    many = []
+    for k in range(30):
+        opts = [[2000 + 100 * k + 2 * j, ""] for j in range(50)]
+        many.append({"op": "raw", "t": round(0.05 * (k + 1), 3), "msg": {"type": 1, "code": 1, "mid": 0x7100 + k, "token": "bb",
+                                                                          "options": opts, "payload": ""}})
+    usual = {"type": 0, "code": 1, "mid": 0x7200, "token": "cc", "payload": "",
+             "options": [[3, "686f7374"], [6, ""], [7, "1633"], [11, "70"], [11, "71"], [12, "28"], [15, "613d62"], [17, "32"],
+                         [23, "16"], [60, "0400"]]}
+    out.append({"ops": many + [{"op": "raw", "t": 2.0, "msg": usual}, {"op": "raw", "t": 2.1, "msg": dict(usual, mid=0x7201, code=2)}],
+                "net": {}})
     return out
 
 
@@ -213,6 +225,7 @@ def execute(sim, scn):
 
     loop = sim.loop
     fg = faults.fate_gen(scn.get("net", {}))
+    value_type_errors = []
     parser_exc = []   # exceptions other than UnparsableMessage leaving Message.decode in the receive path
     decoded = []      # (pos, data, snapshot or None)
     dispatched = []   # (pos, snapshot, roundtrip_ok, detail)
@@ -241,6 +254,24 @@ def execute(sim, scn):
                 decoded.append((len(sim.events), bytes(data), None))
                 raise
             decoded.append((len(sim.events), bytes(data), snapshot(m)))
+            # the VALUES the application gets, not only their serialisation: text for string options, integers for
+            # uint options, (num, more, szx) for block options
+            for o in m.opt.option_list():
+                num, raw = int(o.number), bytes(o.encode())
+                v = getattr(o, "value", None)
+                exp = None
+                if num in STRING_OPTS:
+                    exp = raw.decode("utf8") if valid_utf8(raw) else None
+                elif num in UINT_OPTS or num in (12, 17):
+                    exp = int.from_bytes(raw, "big")
+                elif num in BLOCK_OPTS:
+                    exp = rc.block_value(raw) if len(raw) <= 3 else None
+                    if exp is not None and v is not None:
+                        v = (v.block_number, bool(v.more), v.size_exponent)
+                        exp = (exp[0], bool(exp[1]), exp[2])
+                if exp is not None and (type(v) is not type(exp) and not (isinstance(v, int) and isinstance(exp, int)) or v != exp):
+                    value_type_errors.append({"datagram": bytes(data).hex()[:160], "option": num, "got": repr(v)[:60],
+                                              "expected": repr(exp)[:60]})
             return m
 
         def __getattr__(self, name):
@@ -549,6 +580,8 @@ def execute(sim, scn):
                 sim.probe("length_269")
         if payload == b"\xff":
             sim.probe("payload_ff")
+    for d in value_type_errors[:1]:
+        sim.violation("C01/parsed-option-value-of-wrong-type-or-value", d)
     # ---- exceptions leaving the parser
     for (data, e) in parser_exc:
         sim.violation("C01/parser-raised-%s" % type(e).__name__, {"datagram": data.hex()[:200], "error": str(e)[:200]})
@@ -600,7 +633,11 @@ def execute(sim, scn):
         if rec is None:
             continue
         given = rec["msg"]
-        gs = (int(given.code), [(int(o.number), bytes(o.encode())) for o in given.opt.option_list()], bytes(given.payload))
+        try:
+            gs = (int(given.code), [(int(o.number), bytes(o.encode())) for o in given.opt.option_list()], bytes(given.payload))
+        except Exception as e:  # the application's own message cannot be looked at any more: the library's tables are off
+            sim.violation("C01/application-message-options-unreadable", {"error": repr(e)[:200]})
+            continue
         # the handler sees the path with the matched part ("p") removed: compare apart from Uri-Path
         gopts = [(n, v) for (n, v) in gs[1] if n != 11]
         seen = [h for h in handler_saw if h[3] == bytes(given.token) and h[2] == given.mid and h[6] == me]
